@@ -104,8 +104,35 @@ Theorem C08_args_is_percent_chain : forall fmt l, format_chain fmt [Args l] = fo
 Proof. exact args_is_percent_chain. Qed.
 Print Assumptions C08_args_is_percent_chain.
 
-(* the message of a raised exception is the concatenation of the rendered arguments *)
-Theorem C08_exception_message_concat : forall args, exception_what args = concat (map render args).
+(* each argument is rendered on its own: marker i of the template receives render (argument i), a
+   function of that argument alone — independent of its neighbours and of how they were supplied *)
+Theorem C08_args_independent : forall fmt ops, length (flatten_ops ops) = count_nonoverlapping ph fmt ->
+  format_chain fmt ops = Ok (subst_fn (template fmt) (fun i => render (nth i (flatten_ops ops) (AStr [])))).
+Proof. exact args_independent. Qed.
+Print Assumptions C08_args_independent.
+
+Theorem C08_arg_text_alone : forall l1 l2 i, nth_error l1 i = nth_error l2 i ->
+  nth_error (map render l1) i = nth_error (map render l2) i.
+Proof. exact arg_text_alone. Qed.
+Print Assumptions C08_arg_text_alone.
+
+(* a stream manipulator passed as an argument renders as the empty text (and, by the two theorems
+   above, changes nothing else) *)
+Theorem C08_manip_renders_empty : forall m, render (AManip m) = [].
+Proof. exact manip_renders_empty. Qed.
+Print Assumptions C08_manip_renders_empty.
+
+(* no history: the k-th of several formatters used one after the other gives what it gives alone *)
+Theorem C08_format_seq_independent : forall l k f ops, nth_error l k = Some (f, ops) ->
+  nth_error (format_seq l) k = Some (format_chain f ops).
+Proof. exact format_seq_independent. Qed.
+Print Assumptions C08_format_seq_independent.
+
+(* the message of a raised exception is the concatenation of the rendered arguments.  The hypothesis
+   is the scope of the model: make_string uses ONE stream for all arguments, so an argument that
+   changes the stream's formatting state does influence the arguments after it (see FormatModel.v) *)
+Theorem C08_exception_message_concat : forall args, forallb stateless args = true ->
+  exception_what args = concat (map render args).
 Proof. exact exception_message_concat. Qed.
 Print Assumptions C08_exception_message_concat.
 
@@ -133,6 +160,13 @@ Proof. reflexivity. Qed.
 Example C08_ex_chain : format_chain (B "{} {} {}") [Pct (AStr (B "a")); Args [AInt (-120); ADbl 7]] = Ok (B "a -120 7").
 Proof. reflexivity. Qed.
 Example C08_ex_what : exception_what [AStr (B "got "); AInt 42; AStr (B " items")] = B "got 42 items".
+Proof. reflexivity. Qed.
+Example C08_ex_sticky : format_chain (B "{}{}|{}|{}|{}|{}|{}")
+    [Pct (AHexer 255); Pct (AManip MHex); Args [AInt 16; AManip (MSetprecision 2); AHalf 0; ABoolAlpha true]; Pct (ABool true)]
+  = Ok (B "ff|16||0.5|true|1").
+Proof. reflexivity. Qed.
+Example C08_ex_sticky2 : format_chain (B "{} {} {} {}") [Args [AFixer 12; APadder (-7); AHalf (-2); ADbl 3]]
+  = Ok (B "12.00 -7**** -1.5 3").
 Proof. reflexivity. Qed.
 Example C08_ex_print_dec : print_dec 0 = B "0" /\ print_dec (-9223372036854775808) = B "-9223372036854775808".
 Proof. split; reflexivity. Qed.
